@@ -49,6 +49,12 @@ JUDGE = {
     648: "`buffer.len() < 9`: differs only for a buffer of exactly 8 bytes, which is no frame either way (length 0 or longer than the buffer) - equivalent",
     266: "cache capacity option ignored: by C14 the capacity must not be observable - equivalent for every property",
     428: "`Hash::from_roots`: dead code (legacy big-endian hash, `#[allow(dead_code)]`)",
+    331: "`clear` with start >= end no longer refused: outside C01's quantifier (start < end); the unit tests pin the BadArgument",
+    359: "commitability gate in `verify_and_apply_proof`: never false for anything my workloads (or the public API) can produce - the fork gate before it and the verifier catch every non-commitable proof first",
+    505: "user-data section of an entry: never present (no API writes user data) - see DESIGN section 6",
+    694: "partial flag of a multi-entry append: the crate appends one entry at a time",
+    806: "tree truncation: not reachable through the public API",
+    886: "seek handling in `create_valueless_proof` inverted: a seek-only request is then answered by a proof without the seek nodes, which a replica accepts (nothing to refuse) and which changes no observation - the port has no public seek call whose result could be wrong; C03 promises acceptance and data, not the content of seek sections. Proof *content* for seeks is pinned only by the unit tests' JS-derived expectations",
     1115: "seek root inside a sibling on the block's path: reached only by block+seek requests whose seek lies elsewhere in the proven sub-tree - the W5 gap closed in round 5 (this mutant ran with the harness copy from before)",
 }
 for i, d in sorted(rows.items()):
